@@ -61,12 +61,15 @@ SHARED = [  # DefaultConfig.errors_map in source order: (index, status, body)
 
 
 class RecStream:
-    """wsgi.input: weak-referenceable, remembers which request it belongs to"""
+    """wsgi.input: weak-referenceable, remembers which request it belongs to; `short` = the most bytes one
+    read() returns (a socket-like stream), None = as many as asked for"""
 
-    def __init__(self, rid, data):
-        self.rid, self._b = rid, io.BytesIO(bytes(data))
+    def __init__(self, rid, data, short=None):
+        self.rid, self._b, self._short = rid, io.BytesIO(bytes(data)), short
 
     def read(self, n=-1):
+        if self._short is not None and (n is None or n < 0 or n > self._short):
+            n = self._short
         return self._b.read(n)
 
     def readline(self, *a):
@@ -109,7 +112,7 @@ def url_repr(req):
 def make_environ(req, streams):
     case = req['case']
     body = bytes(req.get('body', []))
-    st = RecStream(req['id'], body)
+    st = RecStream(req['id'], body, req.get('short'))
     streams.append(weakref.ref(st))
     env = {
         'REQUEST_METHOD': case['method'], 'PATH_INFO': raw_path_of(req), 'QUERY_STRING': req.get('qs', ''),
@@ -140,7 +143,11 @@ def dump_response(resp):
 def build_app(case, rec_box):
     """the static application; rec_box[0] is the recorder of the request being served"""
     from ombott import Ombott
-    app = Ombott({'max_body_size': MAX_BODY})
+    if case.get('cfg_via') == 'setup':
+        app = Ombott()
+        app.setup({'max_body_size': MAX_BODY})
+    else:
+        app = Ombott({'max_body_size': MAX_BODY})
     progs = {r['id']: r for r in case['reqs']}
 
     def cur():
@@ -289,13 +296,46 @@ def run_history(case):
     rec_box = [None]
     streams = []
     app = build_app(case, rec_box)
-    responses = [serve_one(app, r, rec_box, streams) for r in case['reqs']]
+    noise = other_app() if case.get('other_app') else None
+    responses = []
+    for k, r in enumerate(case['reqs']):
+        if noise is not None:
+            noise(k)                   # another application of the same process serves something in between
+        responses.append(serve_one(app, r, rec_box, streams))
     tbs = [tb_owners(e) for e in app.config.errors_map.values()]
     gc.collect()
     alive = sorted({w().rid for w in streams if w() is not None})
     if case.get('retention'):
         responses = responses[-1:]
     return dict(responses=responses, tb=tbs, alive=alive)
+
+
+def other_app():
+    """a second application object in the same process and thread: cookies, headers, custom status
+    phrases, error pages and a body error of its own — class- and module-level state is shared with it"""
+    from ombott import Ombott, HTTPError
+    other = Ombott({'max_body_size': 4})
+
+    @other.route('/o/<k:int>', method='ANY')
+    def o(k):
+        other.response.set_cookie('other', 'o%d' % k, path='/o')
+        other.response.headers['X-Other'] = 'yes'
+        other.response.status = '%d Other Phrase' % (520 + k % 3)
+        if k % 3 == 0:
+            raise HTTPError(520 + k, 'other app')
+        if k % 3 == 1:
+            return other.request.body.read()
+        return 'other'
+
+    def serve(k):
+        env = {'REQUEST_METHOD': 'POST', 'PATH_INFO': '/o/%d' % k, 'QUERY_STRING': 'o=1', 'SERVER_NAME': 'other',
+               'SERVER_PORT': '81', 'SERVER_PROTOCOL': 'HTTP/1.1', 'wsgi.url_scheme': 'http',
+               'wsgi.input': io.BytesIO(b'0123456789'), 'CONTENT_LENGTH': '10', 'wsgi.errors': io.StringIO(),
+               'HTTP_ACCEPT': 'application/json' if k % 2 else 'text/html', 'SCRIPT_NAME': ''}
+        body = other(env, lambda *a, **kw: None)
+        list(body)
+        getattr(body, 'close', lambda: None)()
+    return serve
 
 
 def run_fresh(case, r):
@@ -330,8 +370,17 @@ def run_impl(case):
 def project(obs, case):
     if 'responses' not in obs:
         return obs
-    return dict(responses=[dict(events=r['events'], escaped=r['escaped']) for r in obs['responses']],
-                tb=obs['tb'], alive=obs['alive'])
+    out = dict(responses=[dict(events=r['events'], escaped=r['escaped']) for r in obs['responses']],
+               tb=obs['tb'], alive=obs['alive'])
+    return mask_shared(out, case)
+
+
+def mask_shared(out, case):
+    """the errors_map instances are class-level: another application's bad bodies re-own their traceback chains,
+    so with traffic of another application only the bounds (oracle) are checked, not who exactly is retained"""
+    if case.get('other_app'):
+        out = dict(out, tb='masked', alive='masked')
+    return out
 
 
 # --------------------------------------------------------------------------
@@ -408,6 +457,8 @@ def decode(out, case):
     tbs = q.list(lambda z: z.list(lambda y: y.int()))
     alive = sorted(set(q.list(lambda z: z.int())))
     resp = [dict(events=ev, escaped=False) for ev in rs]
+    if case.get('other_app'):
+        return mask_shared(dict(responses=resp, tb=tbs, alive=alive), case)
     return dict(responses=resp, tb=tbs, alive=alive)
 
 
@@ -485,6 +536,8 @@ def g_request(rng, rid):
             req.update(body=list(wire), body_len=len(data), chunked=True)
         else:
             req.update(body=list(rng.choice([b'zz\r\nabc', b'5\r\nab', b'', b'3;x\r\nabcXX'])), body_len=0, chunked=True)
+        if rng.random() < 0.4:
+            req['short'] = rng.choice([1, 2, 3, 7])
         c = special('body', method='POST', json=rng.random() < 0.3)
         c['before'] = [c3.g_hook(c3.Ctx(rng, False)) for _ in range(rng.choice([0, 0, 1]))]
         req.update({'class': 'body', 'body_class': cls, 'case': c})
@@ -513,7 +566,8 @@ def g_history(rng, n=None):
             k = rng.choice(['const', 'body', 'raise'])
             eh.append([code, dict(k='const', o=c3.g_out(c, 1, allow=('falsy', 'str', 'bytes', 'http'))) if k == 'const'
                        else dict(k=k)])
-    return dict(kind='history', peek=rng.random() < 0.6, eh=eh, reqs=[g_request(rng, i) for i in range(n)])
+    return dict(kind='history', peek=rng.random() < 0.6, eh=eh, reqs=[g_request(rng, i) for i in range(n)],
+                other_app=rng.random() < 0.3, cfg_via=rng.choice(['ctor', 'setup']))
 
 
 def retention_case(cls, n):
@@ -594,6 +648,13 @@ def corpus():
             for how2 in ('mut', 'raise', 'resp'):
                 cs.append(dict(kind='history', peek=False, eh=[],
                                reqs=[_req(0, st_case(a, how1)), _req(1, st_case(b, how2)), _req(2, st_case(a, how2))]))
+    for flags in (dict(other_app=True), dict(cfg_via='setup'), dict(other_app=True, cfg_via='setup', peek=True)):
+        base = dict(kind='history', peek=False, eh=[],
+                    reqs=[_req(0, cookie), dict(over[0], id=1, short=3), dict(bad, id=2),
+                          dict(retention_case('badchunk', 1)['reqs'][0], id=3, short=1),
+                          dict(retention_case('okbody', 1)['reqs'][0], id=4, short=1), _req(5, st_case(520, 'raise'))])
+        base.update(flags)
+        cs.append(base)
     cs.append(dict(kind='rule', reset=False, ids=[1, 2, 3]))
     cs.append(dict(kind='rule', reset=True, ids=[1, 2, 3]))
     cs.append(dict(kind='history', peek=True, eh=[], reqs=[over[0], _req(1, cookie), dict(retention_case('badchunk', 3)['reqs'][2]),
@@ -663,6 +724,23 @@ def shrink(case):
 
 
 PREDICATES = {}
+
+API_SURFACE = [
+    ('Ombott._handle: request.__init__(environ) / response.__init__()', 'covered by every history; the early return for an '
+     'undecodable path by badpath requests (utf8 / non-latin1 / truncated)'),
+    ('per-thread cells of Request / Response (ts_props)', 'covered by peek hook (response as handed over) and echo handler (request)'),
+    ('HTTPResponse.apply / BaseResponse.__init__', 'covered: cookies/headers/status left by earlier requests, shared instances (C03 pair)'),
+    ('DefaultConfig.errors_map + BaseRequest._raise', 'covered by body requests (oversize -> 413, malformed chunked -> 400): traceback '
+     'owners and liveness; class-level sharing across applications by other_app traffic'),
+    ('config max_body_size via Ombott(config) and Ombott.setup(config)', 'covered by cfg_via'),
+    ('status phrases of unlisted codes (module-level _HTTP_STATUS_LINES)', 'covered by custom-phrase/number histories'),
+    ('error_render._html_lns (module cache)', 'covered: HTML error pages in every position of a history and in the fresh process'),
+    ('filter_factory._filter_cache', 'excluded: holds compiled filters keyed by rule text only (C01)'),
+    ('wsgi.input short reads', 'covered by short= on body requests (framing itself is C04/C05)'),
+    ('other applications in the process', 'covered by other_app (responses must not change; exact retention ownership masked)'),
+    ('threads', 'excluded: C08; the fresh baseline runs on a fresh thread of a fresh process'),
+    ('hook-list edits persisting across requests, handler-owned state', 'excluded: application state, not framework state'),
+]
 
 MANIFEST = dict(
     text=('Proof: theorems in coq/props/C09.v (Coq, closed under the global context) about coq/model/History.v (on top of '
